@@ -1,7 +1,8 @@
 """C16 - filter updates are invariant to angle representation and observation order.
 
 Lattice explorer over
-  * the wrap / residual / circular-mean helpers of physics/maths.py (exact rational reference),
+  * the wrap / residual / circular-mean helpers of physics/maths.py (exact rational reference), the circular mean also
+    under the unscented weights of every state dimension 2..8 down to alpha = 1e-6 and on sets with a tiny resultant,
   * the real UnscentedKalmanFilter on a linear dynamics stub with real Measurement/Observation objects whose
     components are stub MeasurementTypes flagged angular 0..2pi / angular -pi..pi / linear (every multiset of <= 4
     observations over the announced observation kinds, every permutation of each),
@@ -45,26 +46,40 @@ LEVEL = "model_checking"
 RULE = (
     "helpers: every (seam value, turn count) of the announced alphabets through wrapAngle2Pi / wrapAngleNegPiPi / "
     "vecWrapAngle2Pi / vecWrapAngleNeg, every ordered pair of them through residual / residuals / vecResiduals (all flag "
-    "patterns up to length 4), every (centre, spread pattern, weighting, range, turn pattern) through angularMean, each "
-    "against exact rational / unit-vector references. UKF: for every sigma weighting (n, alpha, kappa) every multiset of "
+    "patterns up to length 4), every (centre, spread pattern, weighting, range, turn pattern) through angularMean "
+    "(weightings: none, uniform, ramp, unscented with alpha in {1, 0.5, 1e-3, 1e-4, 1e-5}), every sigma-point cluster "
+    "(state dimension n = 2..8, alpha from 1 down to 1e-6, kappa in {3 - n, 0}, centre, spread, curvature of the point "
+    "image, turn pattern, range) through angularMean with the unscented mean weights, and every tiny-resultant set "
+    "(opposed pair, evenly spread triple / quadruple with one weight or one angle off by delta, 3-point sets with weights "
+    "~ 1/delta; delta = 1e-5..1e-11; weighted and unweighted) at every centre and range, each "
+    "against exact rational / unit-vector references, plus on the code itself: rotation equivariance, invariance to a "
+    "positive factor on the weights, and the mean staying with its cluster (inside the arc for positive weights, inside "
+    "the analytic unscented envelope of the centre point otherwise). "
+    "UKF: for every sigma weighting (n, alpha, kappa) (quick: alpha = 1, 1e-3, 1e-4, 1e-5 on 4 states, 1 on 2 states) every multiset of "
     "<= 4 observations over the observation kinds (single angular 0..2pi, single angular -pi..pi, single linear, "
     "[0..2pi, -pi..pi, linear], [linear, 0..2pi]), every permutation of it, on a real filter (predict + update) with the "
     "predicted angle of each angular component placed by a wrap offset on / within 1e-9 / within 1e-3 of its seam, plus "
     "the same stack with all offsets off-seam, with +2*pi*k on the measured and on the predicted angles, with a "
     "measurement half a turn away, and through forecast(); compared with an independent unit-vector UKF reference and "
-    "with each other. Real Azimuth/Elevation/Range(/RangeRate) stacks of 1..4 observations from sensors on one meridian "
-    "with the target on / next to / off north, all permutations (quick: the 4-stack for two seam placements). GPF: "
+    "with each other; the predicted measurement mean is also held inside the analytic unscented envelope of the centre "
+    "sigma point's measurement. Real Azimuth/Elevation/Range(/RangeRate) stacks of 1..4 observations from sensors on one meridian "
+    "with the target on / next to / off north, 6-state filter with alpha in {1e-3, 1, 1e-4} (thorough adds 0.05, 0.5, 1e-5), "
+    "all permutations (quick: the 4-stack for two seam placements). GPF: "
     "the same stub stacks through calculateResidualsFromObservations / forecast / update on a fixed particle lattice "
     "(quick: 7 fixed orders of each 4-stack, thorough all 24). "
     "non-trivial = some angular component predicted within 1e-3 rad of its seam, or a turn count k != 0, or a "
-    "non-identity permutation (helpers: value within 1e-3 of a seam or k != 0); distinct by construction (lattice "
-    "points)."
+    "non-identity permutation (helpers: value within 1e-3 of a seam or k != 0; sigma-point clusters: negative centre "
+    "weight; tiny-resultant sets: all); distinct by construction (lattice points)."
 )
 ASSUMPTIONS = [
     "python fractions / math.fsum / atan2 are the arithmetic reference; the double 2*pi is the modulus (as in the code)",
     "the reference UKF is the textbook scaled unscented update (Wan & van der Merwe weights) with angular components "
     "handled as unit vectors; predicted angular spread is kept <= 0.3 rad (weighted circular mean is undefined when the "
-    "weighted resultant vanishes)",
+    "weighted resultant vanishes); a resultant that is merely small because the weights are large (unscented weights: "
+    "sum|w| ~ 1/alpha^2) or because the points nearly balance is NOT that case as long as it exceeds its own rounding "
+    "error: tiny-resultant helper cases whose derived tolerance would exceed 0.05 rad are classified either-way",
+    "mean-in-cluster envelope: |mean - y(centre point)| <= atan(B / (1 - Q)), B = w_side * sum_pairs |d+ + d-|, "
+    "Q = w_side * sum d^2 / 2 (elementary bounds on sin / cos; requires Q < 1/2, otherwise either-way)",
     "real-sensor cases trust getSlantRangeVector / lla2eci / sez2eci / getAzimuth.. (subjects of C04, C14) to evaluate "
     "the measurement function itself; only its angular bookkeeping in the filter is checked here",
     "linear dynamics stub (constant velocity); UKF == Kalman filter equivalence is C06's subject",
@@ -110,8 +125,11 @@ def _near_seam(v: float) -> bool:
 
 # sigma weightings (n, alpha, kappa): kappa None = code default 3 - n.  centre mean weight:
 #   (4,1e-3,None) -1.3e6, (4,.5,None) -4.3, (4,1,None) -1/3, (2,1,None) +1/3, (2,.5,None) -5/3, (4,1,2.0) +1/3, (2,1e-3,None) -6.7e5
-UKF_CFGS_Q = [(4, 1e-3, None), (4, 1.0, None), (2, 1.0, None)]
-UKF_CFGS_T = UKF_CFGS_Q + [(4, 0.5, None), (2, 0.5, None), (2, 1e-3, None), (4, 1.0, 2.0), (4, 0.1, 0.0)]
+#   (4,1e-4,None) -1.3e8, (4,1e-5,None) -1.3e10: legal (0 < alpha < 1) small spreads; the L2-normalised resultant inside
+#   angularMean is 7.1e-9 / 7.1e-11 there (7.1e-7 for (4,1e-3,None); n = 2: 1.3e-8 / 1.3e-10)
+UKF_CFGS_Q = [(4, 1e-3, None), (4, 1.0, None), (2, 1.0, None), (4, 1e-4, None), (4, 1e-5, None)]
+UKF_CFGS_T = UKF_CFGS_Q + [(4, 0.5, None), (2, 0.5, None), (2, 1e-3, None), (4, 1.0, 2.0), (4, 0.1, 0.0), (2, 1e-4, None),
+                           (2, 1e-5, None), (4, 3e-5, 0.0)]  # fmt: skip
 
 # observation kinds: tuple of (component kind, label)
 OBS_KINDS = {
@@ -449,6 +467,11 @@ def items(tier, seed):
     base = _base_angles(seed)
     for which in range(4):
         out.append(("angmean", tier, seed, which))
+    for n in reversed(SIG_DIMS):
+        for which in range(4):
+            out.append(("angsig", tier, seed, which, n))
+    for which in range(4):
+        out.append(("angtiny", tier, seed, which))
     for chunk in fw.chunked(range(len(base)), 3):
         out.append(("residual", tier, seed, list(chunk)))
     for chunk in fw.chunked(range(len(base)), 6):
@@ -461,6 +484,18 @@ def bounds(tier, seed):
     return {
         "helper_angles": len(_base_angles(seed)),
         "helper_turns": _turns(tier),
+        "angularMean_unscented_alphas_(n=2,4_patterns)": [1e-3, 0.5, 1.0, 1e-4, 1e-5],
+        "angularMean_weight_scales": WEIGHT_SCALES,
+        "sigma_cluster_dims": SIG_DIMS,
+        "sigma_cluster_alphas": _sig_alphas(tier),
+        "sigma_cluster_kappas": ["3-n", 0.0],
+        "sigma_cluster_spreads": SIG_SPREADS_T if tier == "thorough" else SIG_SPREADS_Q,
+        "sigma_cluster_curvatures": SIG_CURV,
+        "sigma_cluster_max_sum_abs_w": max(
+            float(np.sum(np.abs(ref.ut_weights(n, a, 2.0, k)[0]))) for n in SIG_DIMS for a in _sig_alphas(tier) for k in SIG_KAPPAS
+        ),
+        "tiny_resultant_deltas": TINY_DELTAS_T if tier == "thorough" else TINY_DELTAS_Q,
+        "tiny_resultant_sets": [t[0] for t in _tiny_sets(1e-5)],
         "ukf_weightings_(n,alpha,kappa)": [list(c) for c in _ukf_cfgs(tier)],
         "observation_kinds": {k: [c for c, _ in OBS_KINDS[k]] for k in _kinds(tier)},
         "max_stack": MAX_STACK,
@@ -628,6 +663,20 @@ def _angmean_sets(tier, seed):
     return centres, spreads, patterns
 
 
+_SYM_PATTERNS = ("single", "pair", "sym5", "sym9")  # point sets symmetric about the centre (equal weights on both sides)
+WEIGHT_SCALES = [2.0**-40, 1e9]
+
+
+def _weight_scale_cases(res, case, angles, wts, low, high, got, tol, rname, it):
+    """angularMean(angles, c * w) == angularMean(angles, w) for c > 0: c * w is rounded once more (relative eps per
+    weight, i.e. one more rounding of the kind already in ``tol``), so 2 * tol."""
+    for scale in WEIGHT_SCALES:
+        got_c = float(rmaths.angularMean(angles, weights=wts * scale, high=high, low=low))
+        d3 = abs((got_c - got + (high - low) / 2) % (high - low) - (high - low) / 2)
+        res.case("helpers/angularMean_weight_scale", {**case, "scale": scale}, d3 <= 2 * tol, nontrivial=True,
+                 signature=f"C16/helpers/angularMean_weight_scale/{rname}", observed=got_c, expected=got, item=it)  # fmt: skip
+
+
 def _run_angmean(res, item):
     _, tier, seed, which = item
     ranges = [(0.0, TWOPI, "rad_0_2pi"), (-PI, PI, "rad_-pi_pi"), (0.0, 360.0, "deg_0_360"), (-180.0, 180.0, "deg_-180_180")]
@@ -642,7 +691,7 @@ def _run_angmean(res, item):
             weightings = [("none", None), ("uniform", np.full(npts, 1.0 / npts)), ("ramp", np.arange(1.0, npts + 1.0))]
             if npts in (5, 9):
                 n = (npts - 1) // 2
-                for alpha in (1e-3, 0.5, 1.0):
+                for alpha in (1e-3, 0.5, 1.0, 1e-4, 1e-5):
                     wm, _, gamma = ref.ut_weights(n, alpha, 2.0, None)
                     weightings.append((f"ukf_a{alpha:g}", wm, gamma))
             for sp in spreads:
@@ -650,8 +699,8 @@ def _run_angmean(res, item):
                     wname, wts = wt[0], wt[1]
                     gamma = wt[2] if len(wt) > 2 else 1.0
                     for tname, tks in turnsets:
-                        if tname == "many" and wname.startswith("ukf_a0.001"):
-                            continue  # 1000 turns times weights of 1e6: angle representation error 1e-12 * 1e6 (see tol)
+                        if tname == "many" and wname in ("ukf_a0.001", "ukf_a0.0001", "ukf_a1e-05"):
+                            continue  # 1000 turns times weights of >= 1e6: angle representation error 1e-12 * 1e6 (see tol)
                         offs = [gamma * sp * p for p in pat]
                         # angles in representation units (radians or degrees), element j shifted by whole turns
                         angles = np.array([(m + o) * unit + (high - low) * tks[j % len(tks)] for j, o in enumerate(offs)])
@@ -669,6 +718,18 @@ def _run_angmean(res, item):
                                  outcome="neg_centre_weight" if (wts is not None and wts[0] < 0) else "pos_weights")  # fmt: skip
                         if got == high:
                             res.either_way += 1
+                        # the mean lies in the cluster: positive weights -> inside the arc spanned by the points
+                        # (arc <= 0.6 rad < pi); unscented weights on a symmetric pattern -> at the centre (see
+                        # ref.cluster_envelope: B = 0).  Rounding as for the reference comparison.
+                        if wts is None or wts[0] > 0 or pname in _SYM_PATTERNS:
+                            radius = 0.0 if (wts is not None and wts[0] <= 0) else max(abs(o) for o in offs)
+                            dc = abs((got - m * unit + (high - low) / 2) % (high - low) - (high - low) / 2)
+                            res.case("helpers/angularMean_in_cluster", case, dc <= radius * unit + tol, nontrivial=nontriv,
+                                     signature=f"C16/helpers/angularMean_in_cluster/{rname}", observed=got,
+                                     expected=f"within {radius * unit + tol:g} of {m * unit:g}", item=it)  # fmt: skip
+                        # the weights are only defined up to a positive factor (the code normalises them)
+                        if wts is not None and tname == "none":
+                            _weight_scale_cases(res, case, angles, np.array(wts), low, high, got, tol, rname, it)
                         # rotation identity on the code itself: mean(set + phi) == mean(set) + phi on the circle
                         if tname == "none" and ci % 3 == 0:
                             for phi in (PI / 2, PI, -1e-3, 2.5):
@@ -688,6 +749,166 @@ def _run_angmean(res, item):
     except Exception:  # noqa: BLE001
         raised = False
     res.case("helpers/angularMean_shape", {"range": rname}, raised, signature="C16/helpers/angularMean_shape", item=it)
+
+
+# ---- sigma-point weightings of every state dimension: the weighted circular mean with a (strongly) negative centre weight
+# angularMean divides the weights by norm(w): for unscented weights the resultant it takes the arctangent of has length
+# 1 / norm(w) ~ alpha^2 (4.8e-7 for n = 6, alpha = 1e-3; 4.8e-9 for alpha = 1e-4; 4.8e-11 for alpha = 1e-5) however tight
+# the cluster is, so anything keyed on the size of that resultant only shows for small (legal: 0 < alpha < 1) alpha.
+SIG_DIMS = [2, 3, 4, 5, 6, 7, 8]
+SIG_ALPHAS_Q = [1.0, 0.5, 0.05, 1e-2, 1e-3, 3e-4, 1e-4, 3e-5, 1e-5, 1e-6]
+SIG_ALPHAS_T = SIG_ALPHAS_Q + [0.1, 2e-3, 2e-4, 1.5e-4, 7e-5, 3e-6]
+SIG_KAPPAS = [None, 0.0]
+SIG_DIRS = [1.0, 0.5, -0.25, 0.75, -1.0, 0.3, -0.6, 0.85]  # signed size of the + point of pair i (fraction of gamma * spread)
+SIG_CURV = [0.0, 0.5, -2.0]  # second-order term of the point image: both points of a pair move by curv * d^2
+SIG_SPREADS_Q = [1e-9, 1e-3, 0.3]
+SIG_SPREADS_T = [1e-9, 1e-3, 0.05, 0.3, 1e-6, 0.15]
+
+
+def _sig_alphas(tier):
+    return SIG_ALPHAS_T if tier == "thorough" else SIG_ALPHAS_Q
+
+
+def _run_angsig(res, item):
+    """angularMean with the unscented mean weights of an n-state filter on sigma-point-like clusters
+    [centre, centre + d_i + c d_i^2 (i = 1..n), centre - d_i + c d_i^2], d_i = gamma * spread * SIG_DIRS[i]."""
+    _, tier, seed, which, n = item
+    ranges = [(0.0, TWOPI, "rad_0_2pi"), (-PI, PI, "rad_-pi_pi"), (0.0, 360.0, "deg_0_360"), (-180.0, 180.0, "deg_-180_180")]
+    low, high, rname = ranges[which]
+    period = high - low
+    unit = period / TWOPI
+    centres, _, _ = _angmean_sets("quick", seed)
+    it = ("angsig", tier, seed, which, n)
+
+    def cdist(a, b):
+        return abs((a - b + period / 2) % period - period / 2)
+
+    for ci, m in enumerate(centres):
+        for alpha in _sig_alphas(tier):
+            for kappa in SIG_KAPPAS:
+                wm, _, gamma = ref.ut_weights(n, alpha, 2.0, kappa)
+                wabs = float(np.sum(np.abs(wm)))
+                for sp in SIG_SPREADS_T if tier == "thorough" else SIG_SPREADS_Q:
+                    for curv in SIG_CURV:
+                        d = [gamma * sp * p for p in SIG_DIRS[:n]]
+                        offs = [0.0] + [x + curv * x * x for x in d] + [-x + curv * x * x for x in d]
+                        for tname, tks in (("none", [0]), ("alt", [0, 1, -1])):
+                            angles = np.array([(m + o) * unit + period * tks[j % len(tks)] for j, o in enumerate(offs)])
+                            exp, rnorm = ref.circular_mean(angles, wm, low, high)
+                            got = float(rmaths.angularMean(angles, weights=wm.copy(), high=high, low=low))
+                            # same derivation as in _run_angmean: eps per sin/cos term plus the representation error of
+                            # its argument, amplified by sum|w| / |resultant| = 1 / rnorm (~ sum|w| here)
+                            arg_ulp = max(ref.ulp(abs(float(a)) + abs(low)) for a in angles) / unit
+                            tol = (8.0 * (EPS + arg_ulp) / rnorm + 4.0 * ref.ulp(TWOPI)) * unit
+                            _diag("angsig/ref", cdist(got, exp), tol)
+                            nontriv = bool(wm[0] < 0)  # the mechanism: a negative centre weight (kappa = 0, alpha = 1 gives w0 = 0)
+                            case = {"range": rname, "n": n, "alpha": alpha, "kappa": kappa, "centre": m, "spread": sp,
+                                    "curv": curv, "turns": tname, "sum_abs_w": wabs}  # fmt: skip
+                            res.case("helpers/angularMean_sigma", case, cdist(got, exp) <= tol and low <= got <= high,
+                                     nontrivial=nontriv, signature=f"C16/helpers/angularMean_sigma/{rname}", observed=got,
+                                     expected=exp, item=it, outcome=f"sum|w|~1e{math.floor(math.log10(wabs))}")  # fmt: skip
+                            if got == high:
+                                res.either_way += 1
+                            # the mean stays with the cluster: analytic envelope around the centre point
+                            _, bound, _ = ref.envelope_from_offsets(offs[1 : n + 1], offs[n + 1 :], float(wm[1]), True)
+                            if bound is not None:
+                                dc = cdist(got, m * unit)
+                                _diag("angsig/cluster", dc, bound * unit + tol)
+                                res.case("helpers/angularMean_sigma_in_cluster", case, dc <= bound * unit + tol, nontrivial=nontriv,
+                                         signature=f"C16/helpers/angularMean_sigma_in_cluster/{rname}", observed=got,
+                                         expected=f"within {bound * unit + tol:g} of {m * unit:g}", item=it)  # fmt: skip
+                            if tname != "none":
+                                continue
+                            if curv == 0.0 or tier == "thorough":
+                                _weight_scale_cases(res, case, angles, wm, low, high, got, tol, rname, it)
+                            # rotation equivariance on the code itself
+                            for phi in (PI / 2, -1e-3, 2.5) if ci % 2 == 0 else (PI,):
+                                got_r = float(rmaths.angularMean(angles + phi * unit, weights=wm.copy(), high=high, low=low))
+                                d2 = cdist(got_r, got + phi * unit)
+                                _diag("angsig/rot", d2, 2 * tol + 8 * EPS * abs(phi) * unit / rnorm)
+                                res.case("helpers/angularMean_sigma_rotation", {**case, "phi": phi},
+                                         d2 <= 2 * tol + 8 * EPS * abs(phi) * unit / rnorm, nontrivial=nontriv,
+                                         signature=f"C16/helpers/angularMean_sigma_rotation/{rname}", observed=got_r,
+                                         expected=got + phi * unit, item=it)  # fmt: skip
+                            res.observe(got)
+
+
+# ---- other point / weight sets whose resultant is tiny although the mean direction is perfectly defined
+TINY_DELTAS_Q = [1e-5, 1e-7, 1e-9, 1e-11]
+TINY_DELTAS_T = TINY_DELTAS_Q + [1e-3, 1e-6, 1e-8, 1e-10]
+
+
+def _tiny_sets(delta):
+    """(name, offsets from the centre, weights or None, direction of the mean relative to the centre or None).
+
+    opposed: two points an (almost) half turn apart, resultant ~ delta;  tri / quad: points evenly spread over the
+    circle with one weight (or one angle) off by delta, resultant ~ delta out of sum|w| = 3 or 4;  centre3: a 3-point
+    'sigma set' with weights (1 - K, K/2, K/2), K = 1 / delta (resultant 1 out of sum|w| ~ 2K), points d = 0.3 sqrt(delta)
+    from the centre, symmetric and first-moment-free asymmetric ((1 - K, K/3, 2K/3) at +2d, -d).
+    """
+    k = 1.0 / delta
+    dk = 0.3 * math.sqrt(delta)  # spread ~ 1 / sqrt(weight), as for sigma points (gamma ~ alpha, weights ~ 1 / alpha^2)
+    third = TWOPI / 3.0
+    return [
+        ("opposed_unweighted", [0.0, PI - delta], None),
+        ("opposed_uniform", [0.0, PI - delta], [0.5, 0.5]),
+        ("opposed_weighted", [0.0, PI], [1.0 + delta, 1.0]),
+        ("tri_weight", [0.0, third, 2 * third], [1.0 + delta, 1.0, 1.0]),
+        ("tri_angle_unweighted", [delta, third, 2 * third], None),
+        ("quad_weight", [0.0, PI / 2, PI, 3 * PI / 2], [1.0, 1.0 + delta, 1.0, 1.0]),
+        ("quad_angle_unweighted", [0.0, PI / 2 + delta, PI, 3 * PI / 2], None),
+        ("centre3_sym", [0.0, dk, -dk], [1.0 - k, k / 2, k / 2]),
+        ("centre3_asym", [0.0, 2 * dk, -dk], [1.0 - k, k / 3, 2 * k / 3]),
+    ]
+
+
+def _run_angtiny(res, item):
+    _, tier, seed, which = item
+    ranges = [(0.0, TWOPI, "rad_0_2pi"), (-PI, PI, "rad_-pi_pi"), (0.0, 360.0, "deg_0_360"), (-180.0, 180.0, "deg_-180_180")]
+    low, high, rname = ranges[which]
+    period = high - low
+    unit = period / TWOPI
+    centres, _, _ = _angmean_sets(tier, seed)
+    it = ("angtiny", tier, seed, which)
+
+    def cdist(a, b):
+        return abs((a - b + period / 2) % period - period / 2)
+
+    for m in centres:
+        for delta in TINY_DELTAS_T if tier == "thorough" else TINY_DELTAS_Q:
+            for sname, offs, wts in _tiny_sets(delta):
+                angles = np.array([(m + o) * unit for o in offs])
+                warr = None if wts is None else np.array(wts)
+                exp, rnorm = ref.circular_mean(angles, wts, low, high)
+                got = float(rmaths.angularMean(angles, weights=None if warr is None else warr.copy(), high=high, low=low))
+                arg_ulp = max(ref.ulp(abs(float(a)) + abs(low)) for a in angles) / unit
+                tol = (8.0 * (EPS + arg_ulp) / rnorm + 4.0 * ref.ulp(TWOPI)) * unit
+                case = {"range": rname, "set": sname, "delta": delta, "centre": m, "resultant": rnorm}
+                if tol > 0.05 * unit:  # resultant within rounding of zero: the documented undefined case
+                    res.either_way += 1
+                    continue
+                _diag("angtiny/ref", cdist(got, exp), tol)
+                res.case("helpers/angularMean_tiny_resultant", case, cdist(got, exp) <= tol and low <= got <= high, nontrivial=True,
+                         signature=f"C16/helpers/angularMean_tiny_resultant/{rname}", observed=got, expected=exp, item=it,
+                         outcome=sname)  # fmt: skip
+                if sname.startswith("centre3"):
+                    # sym: S = 0 exactly; asym: S = (K/3)(sin 2d - 2 sin d), |S| <= K d^3 / 3 = 0.009 sqrt(delta), and
+                    # C >= 1 - K d^2 = 0.91: the mean is within 0.01 sqrt(delta) < d of the centre point
+                    radius = max(abs(o) for o in offs)
+                    dc = cdist(got, m * unit)
+                    res.case("helpers/angularMean_tiny_in_cluster", case, dc <= radius * unit + tol, nontrivial=True,
+                             signature=f"C16/helpers/angularMean_tiny_in_cluster/{rname}", observed=got,
+                             expected=f"within {radius * unit + tol:g} of {m * unit:g}", item=it)  # fmt: skip
+                if warr is not None:
+                    _weight_scale_cases(res, case, angles, warr, low, high, got, tol, rname, it)
+                for phi in (PI / 2, PI, -1e-3, 2.5):
+                    got_r = float(rmaths.angularMean(angles + phi * unit, weights=None if warr is None else warr.copy(), high=high, low=low))
+                    d2 = cdist(got_r, got + phi * unit)
+                    _diag("angtiny/rot", d2, 2 * tol + 8 * EPS * abs(phi) * unit / rnorm)
+                    res.case("helpers/angularMean_tiny_rotation", {**case, "phi": phi}, d2 <= 2 * tol + 8 * EPS * abs(phi) * unit / rnorm,
+                             nontrivial=True, signature=f"C16/helpers/angularMean_tiny_rotation/{rname}", observed=got_r,
+                             expected=got + phi * unit, item=it)  # fmt: skip
+                res.observe(got)
 
 
 # =================================================================================================== UKF (stubs)
@@ -718,6 +939,21 @@ def _compare_with_reference(res, sub, case, filt, exp, tols, sig0, nontriv, item
              observed=filt.mean_pred_y, expected=exp["mean_y"], item=item)  # fmt: skip
     res.case(f"{sub}/mean_pred_y_range", pub, in_range, nontrivial=nontriv, signature=f"C16/{sub}/mean_pred_y_range",
              observed=filt.mean_pred_y, expected="angular means inside [low, high] of their IsAngle flag", item=item)  # fmt: skip
+    # predicted measurement mean stays with the sigma-point cluster: analytic envelope around the centre point's value
+    # (ref.cluster_envelope; needs only the sigma-point images and the side weight, not the reference's own mean)
+    ys, wside, nst = exp["ys"], float(exp["wm"][1]), (exp["ys"].shape[0] - 1) // 2
+    in_cluster, worst = True, 0.0
+    for j, k in enumerate(case["_kinds"]):
+        _, bound, _ = ref.cluster_envelope(float(ys[0, j]), ys[1 : nst + 1, j], ys[nst + 1 :, j], wside, k != LIN)
+        if bound is None:
+            res.either_way += 1
+            continue
+        dev = abs(filt.mean_pred_y[j] - ys[0, j]) if k == LIN else ref.circ_dist(float(filt.mean_pred_y[j]), float(ys[0, j]))
+        worst = max(worst, (dev - bound) / sy[j])
+        in_cluster = in_cluster and dev <= bound + tol * sy[j]
+    _diag(f"{sub}/mean_in_cluster", max(worst, 0.0), tol)
+    res.case(f"{sub}/mean_in_cluster", pub, in_cluster, nontrivial=nontriv, signature=f"C16/{sub}/mean_in_cluster",
+             observed=filt.mean_pred_y, expected="within the unscented envelope of the centre sigma point's measurement", item=item)  # fmt: skip
     res.case(f"{sub}/innov_cvr", pub, d_s <= tolc, nontrivial=nontriv, signature=f"C16/{sub}/innov_cvr", observed=d_s,
              expected=f"<= {tolc:g}", item=item)  # fmt: skip
     d_c = float(np.max(np.abs(filt.cross_cvr - exp["cross_cvr"]) / np.outer(sig0, sy)))
@@ -942,7 +1178,7 @@ GPF_ORDERS_4_Q = [(3, 2, 1, 0), (1, 2, 3, 0), (2, 3, 0, 1), (1, 0, 2, 3), (0, 1,
 
 
 def _real_alphas(tier):
-    return [1e-3, 1.0] if tier == "quick" else [1e-3, 0.05, 0.5, 1.0]
+    return [1e-3, 1.0, 1e-4] if tier == "quick" else [1e-3, 0.05, 0.5, 1.0, 1e-4, 1e-5]
 
 
 def _real_placements(tier):
@@ -1293,6 +1529,10 @@ def run_item(item):
         _run_residual(res, item)
     elif kind == "angmean":
         _run_angmean(res, item)
+    elif kind == "angsig":
+        _run_angsig(res, item)
+    elif kind == "angtiny":
+        _run_angtiny(res, item)
     elif kind == "flags":
         _run_flags(res, item)
     elif kind == "ukf":
